@@ -17,7 +17,7 @@ Raw struct layout (offsetof) is measured by g++ and used as the meaning of `payl
 """
 import z3
 
-from vf.cxxvc import Contract, LoopSpec, CInt, CBool, CPtr, CObj, BV64, OutOfReach, parse_qual, fresh, CT, FrameFact
+from vf.cxxvc import Contract, LoopSpec, CInt, CBool, CPtr, CObj, BV64, OutOfReach, parse_qual, fresh, CT, FrameFact, MemDef
 from specs import wire as W
 from . import cxx_header as H
 
@@ -72,6 +72,34 @@ def setup_region(cx, st, a, key='in'):
     st.assume(z3.ULT(hi - lo, COUNT_MAX))
 
 
+def hint(cx, st, addr, count=None):
+    """While the generated swap<T> of a message is executed: look (small solver queries on the path condition) for the
+    next documented visit whose address the path condition already entails to be the address of this leaf call, and
+    state the entailed equation (and that of the counts) explicitly.  Nothing is assumed that the path condition does not
+    entail; the equations only spare the later, larger queries the same derivation."""
+    exp = st.ghost.get('expected')
+    if exp is None or not cx.current or len(cx.fn_stack) < 1:
+        return
+    entries = exp[0]
+    k = st.ghost.get('hint_k', 0)
+    for j in range(k, min(len(entries), k + 4)):
+        e = entries[j]
+        if _entailed(st, addr == e[1]):
+            st.assume(addr == e[1])
+            st.ghost['hint_k'] = j + 1
+            if count is not None and e[2] is not None and _entailed(st, count == e[2]):
+                st.assume(count == e[2])
+            return
+
+
+def _entailed(st, f):
+    s = z3.Solver()
+    s.set('timeout', 5000)
+    s.add(*st.pc)
+    s.add(z3.Not(f))
+    return s.check() == z3.unsat
+
+
 # --------------------------------------------------------------------------- leaves
 
 def scalar_swap_contract():
@@ -84,6 +112,7 @@ def scalar_swap_contract():
 
     def requires(cx, st, a):
         n = nbytes(a)
+        hint(cx, st, a['in'].addr)
         r = [('in_message', in_region(st, a['in'].addr, bv(n)))]
         if n > 1:
             r.append(('aligned', (a['in'].addr & bv(n - 1)) == 0))
@@ -93,8 +122,9 @@ def scalar_swap_contract():
         n = nbytes(a0)
         p = a0['in'].addr
         v = load_le(s0.mem, p, n)
-        want = s0.mem if n == 1 else H.store_bytes(s0.mem, p, bswap(v, n), n, False)
-        return [('bytes reversed in place, nothing else written', s1.mem == want)]
+        if n == 1:
+            return [('bytes reversed in place, nothing else written', MemDef(s0.mem, s1.mem, p, 0, None))]
+        return [('bytes reversed in place, nothing else written', MemDef(s0.mem, s1.mem, p, n, lambda old: bswap(old, n)))]
 
     def effect(cx, s0, a0, s1, a1, ret):
         s1.trace.append(('scalar', a0['in'].addr, bv(1), nbytes(a0)))
@@ -119,10 +149,21 @@ def cast_contract():
 
     def ensures(cx, s0, a0, s1, a1, ret):
         al = target_align(cx, a0)
-        return [('rounded up to the alignment of the target type', ret.addr == rup(a0['from'].addr, al)),
-                ('mem.unchanged', s1.mem == s0.mem)]
+        r = [('rounded up to the alignment of the target type', ret.addr == rup(a0['from'].addr, al)),
+             ('mem.unchanged', s1.mem == s0.mem)]
+        base = s0.ghost.get('RLO')
+        if base is not None:
+            # the same fact in the form the wire layout is stated in (offsets from the start of the message): relative
+            # to any base aligned at least as strictly, rounding the address up is rounding the offset up
+            r.append(('rounding relative to an aligned base',
+                      z3.Implies(z3.And((base & bv(al - 1)) == 0, z3.ULE(base, a0['from'].addr)),
+                                 ret.addr == base + rup(a0['from'].addr - base, al))))
+        return r
 
-    return Contract('cast', match, requires, ensures, params=('from',), props=('C09',))
+    def setup(cx, st, a):
+        st.ghost['RLO'] = fresh('BASE', BV64)       # any base
+
+    return Contract('cast', match, requires, ensures, params=('from',), props=('C09',), setup=setup)
 
 
 def swap_n_fixed_contract():
@@ -138,6 +179,7 @@ def swap_n_fixed_contract():
         sz = esize(cx, a)
         e = a['first'].elem
         al = (e.bits // 8) if e.kind == 'int' else cx.alignof_ct(e)
+        hint(cx, st, a['first'].addr, a['n'].t)
         r = [('count', z3.ULT(a['n'].t, COUNT_MAX)), ('in_message', in_region(st, a['first'].addr, a['n'].t * bv(sz)))]
         if al > 1:
             r.append(('aligned', (a['first'].addr & bv(al - 1)) == 0))
@@ -185,6 +227,7 @@ def swap_n_dynamic_contract():
         e = a['first'].elem
         al = cx.alignof_ct(e)
         first, n = a['first'].addr, a['n'].t
+        hint(cx, st, first, n)
         return [('count', z3.ULT(n, COUNT_MAX)), ('aligned', (first & bv(al - 1)) == 0),
                 ('in_message', z3.And(z3.ULE(st.ghost['RLO'], first), z3.ULE(ELEMADDR(first, n), st.ghost['RHI']),
                                       z3.ULE(first, ELEMADDR(first, n))))]
@@ -255,6 +298,8 @@ def gen_swap_contract(type_names=None):
     def requires(cx, st, a):
         name, info = tinfo(cx, a)
         p = a['payload'].addr
+        if not (cx.current and cx.current[2] is a.get('__fn')):
+            hint(cx, st, p)
         return [('aligned', (p & bv(info['align'] - 1)) == 0), ('in_message', in_region(st, p, size_term(cx, st, a)))]
 
     def ensures(cx, s0, a0, s1, a1, ret):
